@@ -47,7 +47,7 @@ def run_variant(v, repo, tier="quick"):
                 return {"name": v["name"], "status": "broken-variant", "why": str(ex)}
             f.write_text(s)
         ev = tmp / "evidence"
-        env = dict(os.environ, GSVERIF_EVIDENCE_DIR=str(ev), PYTHONPATH=str(VERIF))
+        env = dict(os.environ, GSVERIF_EVIDENCE_DIR=str(ev), PYTHONPATH=str(VERIF), GSVERIF_JOBS=os.environ.get("GSVERIF_JOBS", "2"))
         t0 = time.time()
         if v["property"] == "*":
             # a behaviour-preserving rewrite: every registered check must stay silent
@@ -69,6 +69,9 @@ def run_variant(v, repo, tier="quick"):
                "findings": findings[:6]}
         if v.get("expect") == "silent":
             res["status"] = "ok" if p.returncode == 0 else "FALSE-ALARM"
+        elif v.get("expect") == "undecided":
+            # a construct the analysis does not model: it must say so (exit 2), neither pass nor claim a violation
+            res["status"] = "ok" if p.returncode == 2 else ("SILENT-PASS" if p.returncode == 0 else "CLAIMED-VIOLATION")
         else:
             want = v.get("expect_rule", "")
             hit = [l for l in findings if want in l]
